@@ -143,7 +143,9 @@ def run(ck):
     # for a concrete input; a harmless rewrite is reported too: the correspondence is no longer shown)
     pins = json.load(open(os.path.join(vlib.VERIF, "checks", "c17_pins.json")))
     MODELLED_AS = {"executor/mod.rs:resolve_column_index_on_schema": "Wf.resolve", "planner/rules/plan.rs:analyze_columns": "Wf.usedCols",
-                   "planner/rules/plan.rs:produced": "Wf.producedOf", "planner/rules/plan.rs:apply_proj": "Wf.keptColumns / applyProjOrder"}
+                   "planner/rules/plan.rs:produced": "Wf.producedOf", "planner/rules/plan.rs:apply_proj": "Wf.keptColumns / applyProjOrder",
+                   "executor/mod.rs:build_id_subscriber": "Wf.check", "executor/mod.rs:build_hashjoin": "Wf.check (hashjoin arm)",
+                   "executor/mod.rs:build_hashsemijoin": "Wf.check (hash semi/anti join arm)", "executor/mod.rs:build_mergejoin": "Wf.check (mergejoin arm)"}
     for key, was in pins.items():
         path, fn = key.split(":")
         try:
